@@ -393,7 +393,7 @@ def _route(draw, tier):
     mx = max(tids)
     for _ in range(draw(st.integers(1, 12))):
         if draw(st.integers(0, 5)) == 0:  # undeclared id, possibly repeated
-            u = draw(st.sampled_from([mx + 1, mx + 2, 0, 200, 65535]))
+            u = draw(st.sampled_from([mx + 1, mx + 2, 0, 200, 65535, 256 + 25, 256 + 7, 512 + 26, 256 * 5 + 5, 256 * 3 + mx]))
             frames += [[u, {"hex": draw(st.sampled_from(["", "0801", "0d0000803f"]))}]] * draw(st.integers(1, 3))
             continue
         i = draw(st.sampled_from(server_side))
@@ -434,7 +434,7 @@ def enumerated(tier):
         yield {"kind": "route", "noise": (lo // 16) % 2 == 1, "frames": [[i, {}] for i in ids_[lo:lo + 16]], "send": [[i, {}] for i in cs[lo // 2: lo // 2 + 8]]}
     yield {"kind": "route", "noise": False, "frames": [[7, {}], [5, {}]], "send": []}
     mx = max(tids)
-    for u in (0, mx + 1, 65535):
+    for u in (0, mx + 1, 65535, 256 + 25, 256 + 26, 512 + 7, 256 * 4 + 36, 256 + 5):
         for known in (25, 26, mx):
             yield {"kind": "route", "noise": u == 65535, "frames": [[known, {}], [u, {"hex": "0801"}], [u, {"hex": "0801"}], [u, {"hex": ""}], [known, {}]], "send": []}
     subs = [m for m in _api_methods() if m.startswith("subscribe_")] + ["bluetooth_gatt_start_notify", "bluetooth_device_connect"]
